@@ -34,6 +34,16 @@ CHECKS = [
       level_claimed=dict(category="model_checking", text="The same scripted programs are written against core.h (harness/engine_driver_capi.cpp); every history is driven through both interfaces, the C trace is validated against Engine.tla (EngineTraceC.tla, where the events the C interface cannot express are inferred by TLC and the database snapshot pins them) and compared event by event with the C++ run (callbacks, executions, results, persisted rows).", design_ref="DESIGN.md §7 C20"),
       level_note=ENGINE_NOTE + " The exhaustive model checking of Engine.tla itself is the one reported under C01-C07; this check contributes the binding of the C interface to that specification.",
       technique="trace validation of C-interface executions against the TLA+ spec + C/C++ twin comparison"),
+ dict(property_id="C13", quick_cmd="./tools/check C13 --tier quick", thorough_cmd="./tools/check C13 --tier thorough",
+      evidence_file="/verif/evidence/C13.json", replay_cmd_template="./tools/check C13 --replay {path}", engine="tlc+fn_driver",
+      level_claimed=dict(category="translation_validation", text="spec/fn/FileInfoCmp.tla states, for every pair of abstract observations of a path (missing/file/dir/symlink x content x mtime incl. sub-second x inode kept or replaced) and each of the three file-system modes, the verdict the property demands (eq / ne / open). TLC enumerates the whole finite domain; every case is realised on disk and observed through createLocalFileSystem, DeviceAgnosticFileSystem and ChecksumOnlyFileSystem, and the comparison of the two FileInfo records must equal the demanded verdict; the missing sentinel must appear exactly for missing paths.", design_ref="DESIGN.md §6, §7 C13"),
+      level_note="Exhaustive over the abstract domain, which is a finite abstraction of file states (3 contents of 2 sizes, 3 mtimes). Trusted: TLC as enumerator, the realisation code in harness/fn_cases.inc, one local file system.",
+      technique="TLA+ function-level spec enumerated by TLC, cases replayed through the real file-system classes"),
+ dict(property_id="C15", quick_cmd="./tools/check C15 --tier quick", thorough_cmd="./tools/check C15 --tier thorough",
+      evidence_file="/verif/evidence/C15.json", replay_cmd_template="./tools/check C15 --replay {path}", engine="tlc+fn_driver",
+      level_claimed=dict(category="translation_validation", text="spec/fn/Codec.tla transcribes the wire formats of BuildValue, BuildKey, StringList, FileInfo and the BinaryEncoder primitives as byte sequences; TLC checks Decode(Encode(x)) = x (hence injectivity) and tag distinctness on the whole bounded domain, and every enumerated (x, bytes) pair is compared with the bytes the implementation produces, its decode of those bytes (every field) and its re-encoding; collisions between distinct items are searched among the implementation's encodings.", design_ref="DESIGN.md §6, §7 C15"),
+      level_note="Bounded domain (edge-value sets for 64-bit fields, names <= 2 bytes over {a, NUL, /, 0xFF}, <= 3 outputs, <= 2 strings). No claim of unbounded injectivity.",
+      technique="TLA+ function-level spec (round trip checked by TLC) + byte-for-byte comparison with the implementation"),
 ]
 NA = []
 claimed = {c["property_id"] for c in CHECKS}
